@@ -154,13 +154,19 @@ theorem Secrets_store_sound {S : Type} [DecidableEq S] (F : Nat → S → S) (ss
   · have : 0 < N48 := by decide
     omega
 
-/-
-Still not proved (kept visible): `Secrets_store_complete` — secrets generated from one seed by the BOLT-3
-rule (`fromSeed F seed idx`) are always accepted by `provide`.  It follows from `Secrets_tree_law`
-(the check `derive F (fromSeed seed idx) pos old_idx = fromSeed seed old_idx`), but the bookkeeping that
-every stored slot shares the new index's bits above `pos` was not done; validated by the harness
-(seeded sequences are always accepted by the Rust store and by the model, all 49 slots).
--/
+/-- **Secrets_store_complete** (for every `F`): the secrets a counterparty derives from ONE seed by the
+    BOLT-3 rule (`fromSeed F seed idx` = LDK's `build_commitment_secret`), revealed in descending order from
+    index 2^48-1, are all accepted by `provide_secret`, and `get_secret` reproduces each of them. -/
+theorem Secrets_store_complete {S : Type} [DecidableEq S] (F : Nat → S → S) (seed : S) (k : Nat) (hk : k ≤ N48) :
+    ∃ st', provideDesc F [] N48 (seedDesc F seed N48 k) = some st' ∧
+      ∀ i, i < k → get F st' (N48 - 1 - i) = .some (fromSeed F seed (N48 - 1 - i)) := by
+  obtain ⟨st', h⟩ := provideDesc_complete F seed k N48 [] (fun j => fromSeed F seed j) (SInv_init F _)
+    (fun _ _ _ => rfl) hk
+  refine ⟨st', h, ?_⟩
+  intro i hi
+  have hlen := seedDesc_length F seed N48 k hk
+  have := Secrets_store_sound F _ st' h i (by omega)
+  rw [this, seedDesc_get]
 
 /-! ### Non-vacuity -/
 
